@@ -2,6 +2,7 @@ package main
 
 func controlsC09() []Control {
 	return []Control{
+		{Name: "completion reported only for a game count not reported before", Expect: "R3", Mutate: replaceIn("(*openGameManager).readyGroupOnCompleted", "\tm.onOpenGameReady(", "\tif m.state.GameCount < 0 {\n\t\treturn\n\t}\n\tm.onOpenGameReady(", 0)},
 		{Name: "Setup does not stop the previous round", Expect: "R1", Mutate: replaceIn("(*openGameManager).Setup", "m.rg.Stop()\n", "", 0)},
 		{Name: "Setup pre-readies every participant", Expect: "R1", Mutate: replaceIn("(*openGameManager).Setup", "m.readyGroupAddParticipant(participant, false)", "m.readyGroupAddParticipant(participant, true)", 0)},
 		{Name: "Setup starts before adding participants", Expect: "R1", Mutate: replaceIn("(*openGameManager).Setup", "\tm.readyGroupResetParticipants()\n", "\tm.readyGroupResetParticipants()\n\tm.rg.Start()\n", 0)},
